@@ -40,20 +40,21 @@ func init() {
 		},
 	})
 	register(&Property{
-		ID: "C11",
+		ID:          "C11",
 		Explanation: "Structural slice: (R11.1) in trimResultsToRange no search-and-slice loop can fall through on 'no row satisfies the bound' while still holding the rows it had before the loop; (R11.2) on the VARIABLE edge of Reader.Read the row series is built only from a buffer that passed trimResultsToRange.",
-		NotCovered: "the fixed-length offset arithmetic of NewIOPlan, cross-year planning, inverted ranges, the single-record shortcut's value semantics.",
+		NotCovered:  "the fixed-length offset arithmetic of NewIOPlan, cross-year planning, inverted ranges, the single-record shortcut's value semantics.",
 		Rules: []Rule{
 			{"R11.1", "not-found edge of the trimming loops", ruleSearchLoopNotFound},
 			{"R11.2", "variable results are always trimmed; limit after range", ruleTrimOrder},
 		},
 	})
 	register(&Property{
-		ID: "C12",
-		Explanation: "Thin: (R12.1) trimResultsToLimit is applied to the result of trimResultsToRange, never before it; (R12.2) a LAST-direction scan without a row limit is refused before scanning. NOT decided and known to be false on today's tree: for variable-length buckets the interval-level limit is applied before the range trim, so fewer than N rows can be returned.",
-		NotCovered: "row counts (arithmetic over N); the interval-level pre-limit for variable-length buckets.",
+		ID:          "C12",
+		Explanation: "Thin: (R12.1) trimResultsToLimit is applied to the result of trimResultsToRange, never before it; (R12.2) a LAST-direction scan without a row limit is refused before scanning; (R12.3) the per-file byte count of the backward scan is accumulated over all read chunks and Reader.read shrinks what is left to fill by exactly that count (an under-count cuts the oldest rows of LAST N). NOT decided and known to be false on today's tree: for variable-length buckets the interval-level limit is applied before the range trim, so fewer than N rows can be returned.",
+		NotCovered:  "row counts (arithmetic over N); the interval-level pre-limit for variable-length buckets.",
 		Rules: []Rule{
 			{"R12.1", "limit after range; unlimited reverse scan refused", ruleTrimOrder},
+			{"R12.3", "the backward scan reports every byte it copied (count accumulates over chunks)", ruleBackwardScanAccounting},
 		},
 	})
 }
